@@ -531,8 +531,47 @@ pub fn run(ctx: &Ctx) {
         t.evals += 1;
         ctx.violations(check_long(&joined));
     }
+    // neighbours: a string of every length 250..=255 (key=value, bare key, "key=") next to short
+    // strings with and without '=', in every order of up to three strings
+    let mut n_adj = 0u64;
+    for len in 250..=255usize {
+        let longs = [format!("k={}", "v".repeat(len - 2)), "b".repeat(len), format!("{}=", "e".repeat(len - 1))];
+        let shorts = ["flag", "x=y", "k", "z="];
+        for long in &longs {
+            for a in shorts {
+                for l in [vec![long.clone(), a.to_string()], vec![a.to_string(), long.clone()]] {
+                    n_adj += 1;
+                    t.evals += 1;
+                    t.nontrivial += 1;
+                    ctx.violations(check_strings(&l));
+                }
+                for b in shorts {
+                    for l in [vec![long.clone(), a.to_string(), b.to_string()], vec![a.to_string(), long.clone(), b.to_string()], vec![a.to_string(), b.to_string(), long.clone()]] {
+                        n_adj += 1;
+                        t.evals += 1;
+                        t.nontrivial += 1;
+                        ctx.violations(check_strings(&l));
+                    }
+                }
+            }
+            // and as a map entry next to value-less keys (the TXT is built by the library, in its own order)
+            if long.contains('=') && !long.ends_with('=') {
+                for extra in 1..=5usize {
+                    let mut entries: Vec<(String, Option<String>)> = vec![("k".to_string(), Some("v".repeat(len - 2)))];
+                    for j in 0..extra {
+                        entries.push((format!("f{}{}", j, "x".repeat(j)), None));
+                    }
+                    n_adj += 1;
+                    t.evals += 1;
+                    t.nontrivial += 1;
+                    ctx.violations(check_map(&entries));
+                }
+            }
+        }
+    }
     t.outcome("strings");
     ctx.space("attributes(): every list of <= 2 (3 thorough) raw strings over 8 atoms incl. duplicates and empty keys", lists.len() as u64, "complete");
+    ctx.space("attributes(): a string of every length 250..=255 (key=value, bare key, key with an empty value) before / between / after one or two short strings with and without '='; the 250..=255-byte entry in a map next to 1..=5 value-less keys", n_adj, "complete");
     ctx.sample(json!({"kind": "strings", "strings": ["k=1", "k=2"]}));
     ctx.merge(t);
     // space 4: long_attributes
